@@ -193,12 +193,13 @@ func ParseAux(text []byte) (Aux, error) {
 		}
 		value = Hex(b)
 	case 'B':
-		if txt[1] != ',' {
+		if len(txt) == 0 || (len(txt) > 1 && txt[1] != ',') {
 			return nil, fmt.Errorf("sam: invalid aux tag field: %q", text)
 		}
-		nf := bytes.Split(txt[2:], []byte{','})
-		if len(nf) == 0 {
-			return nil, fmt.Errorf("sam: invalid aux tag field: %q", text)
+		// A bare element type is the empty array.
+		var nf [][]byte
+		if len(txt) > 1 {
+			nf = bytes.Split(txt[2:], []byte{','})
 		}
 		switch txt[0] {
 		case 'c':
